@@ -22,7 +22,12 @@ class InvertedBooleanCheckTransformer(LibcstResultTransformer):
             if len(comparison.comparisons) > 1:
                 # `not a == b == c` is not `a != b != c`: leave chains alone
                 return updated_node
-            return self.report_new_comparison(original_node, comparison)
+            new_node = self.report_new_comparison(original_node, comparison)
+            # parentheses around the `not` expression now belong to its replacement
+            return new_node.with_changes(
+                lpar=[*updated_node.lpar, *new_node.lpar],
+                rpar=[*new_node.rpar, *updated_node.rpar],
+            )
         return updated_node
 
     def report_new_comparison(
